@@ -25,8 +25,10 @@ type Timing struct {
 	CancelAt int      `json:"cancelAt,omitempty"`
 	// StopAtCancel: the consumer gives up at the cancel (nobody receives afterwards)
 	StopAtCancel bool `json:"stopAtCancel,omitempty"`
-	// Slow: the step function of Emit takes Slow[i mod len] quarters of a tick (virtual time) for index i
+	// Slow: the step function takes Slow[i mod len] quarters of a tick (virtual time) for index / value i
 	Slow []int `json:"slow,omitempty"`
+	// Drain: the consumer never stops receiving (also beyond the values it waits for and after the cancel)
+	Drain bool `json:"drain,omitempty"`
 }
 
 type stamped struct {
@@ -215,6 +217,7 @@ func runThrottle(sc *Scenario) (res Result) {
 	var mu sync.Mutex
 	var got []stamped
 	closedSeen := false
+	var inClosedAt, outClosedAt time.Duration = -1, -1
 	var cancelledAt time.Duration = -1
 	if sc.PreCancel {
 		cancelledAt = 0
@@ -248,6 +251,9 @@ func runThrottle(sc *Scenario) (res Result) {
 				return
 			}
 		}
+		mu.Lock()
+		inClosedAt = time.Since(start)
+		mu.Unlock()
 		close(in)
 	}()
 
@@ -262,6 +268,7 @@ func runThrottle(sc *Scenario) (res Result) {
 				defer mu.Unlock()
 				if !ok {
 					closedSeen = true
+					outClosedAt = time.Since(start)
 					return false
 				}
 				got = append(got, stamped{v, time.Since(start)})
@@ -354,6 +361,21 @@ func runThrottle(sc *Scenario) (res Result) {
 		if !closed || len(vals) != len(input) {
 			finish()
 			res.Msg = fmt.Sprintf("throttling: output closed=%v after delivering %v of %v", closed, vals, input)
+			return
+		}
+		// "closes when the input closes": once the input is closed and the last element delivered nothing else has to
+		// happen first (no further credit, no further tick) - with a consumer that was ready at that moment
+		mu.Lock()
+		due := inClosedAt
+		if len(g) > 0 && g[len(g)-1].at > due {
+			due = g[len(g)-1].at
+		}
+		late := len(sc.T.Consume) == 0 && outClosedAt > due
+		at := outClosedAt
+		mu.Unlock()
+		if late {
+			finish()
+			res.Msg = fmt.Sprintf("throttling(ops=%d, interval=%v): the input was closed at %v and the last element delivered at %v, but the output closed only at %v (consumer always ready)", ops, interval, inClosedAt, due, at)
 			return
 		}
 	}
@@ -465,7 +487,14 @@ func runGenerator(sc *Scenario) (res Result) {
 	giveUp := make(chan struct{})
 	want := max(sc.N, 1)
 	go func() {
-		defer close(done)
+		doneClosed := false
+		markDone := func() {
+			if !doneClosed {
+				doneClosed = true
+				close(done)
+			}
+		}
+		defer markDone()
 		n := 0
 		recv := func() bool {
 			select {
@@ -509,6 +538,12 @@ func runGenerator(sc *Scenario) (res Result) {
 		for n < want {
 			if !recv() {
 				return
+			}
+		}
+		markDone()
+		if sc.T.Drain {
+			// a consumer that never stops: whatever arrives is taken at once, also after the cancel, until the channel closes
+			for recv() {
 			}
 		}
 	}()
@@ -656,16 +691,16 @@ func runGenerator(sc *Scenario) (res Result) {
 	// go on for ever), then nobody reads anything
 	// (try-and-continue stages whose consumer did not walk away; for the others the error reader stops first, so that a
 	// stage parked on an error nobody takes must be freed by the cancel alone)
-	keepErrReader := sc.Mode == "try" && !sc.T.StopAtCancel
+	keepErrReader := (sc.Mode == "try" || sc.T.Drain) && !sc.T.StopAtCancel
 	if keepErrReader {
 		finish()
 	}
 	mu.Lock()
-	stillOpen := keepErrReader && !errClosed
+	stillOpen := keepErrReader && (!errClosed || sc.T.Drain && !outClosed)
 	mu.Unlock()
 	if stillOpen {
 		close(e.envStop)
-		res.Msg = fmt.Sprintf("%s: %d periods after the cancel the error channel is still open although every error was being received (the stage goes on after the cancel)", sc.Stage, 4*sc.Caps0()+32)
+		res.Msg = fmt.Sprintf("%s: %d periods after the cancel the channels are still open (values closed: %v, errors closed: %v) although everything the stage sent was being received at once (the stage goes on after the cancel)", sc.Stage, 4*sc.Caps0()+32, outClosed, errClosed)
 		synctest.Wait()
 		finish()
 		return
